@@ -223,7 +223,7 @@ Print Assumptions C18_result_metric_labels.
 Theorem C18_one_to_one_partial_bijection : forall op rb m lhs rhs out,
   is_cmp op && negb rb = false ->
   vv_binop op rb m lhs rhs = Some out ->
-  (forall l r r', In r rhs -> In r' rhs -> sigf m l = sigf m r -> sigf m l = sigf m r' -> r = r') /\
+  (forall l r r', In l lhs -> In r rhs -> In r' rhs -> sigf m l = sigf m r -> sigf m l = sigf m r' -> r = r') /\
   (forall l l' r, In l lhs -> In l' lhs -> In r rhs -> sigf m l = sigf m r -> sigf m l' = sigf m r -> l = l') /\
   out = map (pair_out op rb m rhs) (partnered m rhs lhs) /\
   (forall l, In l (partnered m rhs lhs) <-> In l lhs /\ exists r, In r rhs /\ sigf m l = sigf m r).
